@@ -68,10 +68,12 @@ def plan(tier, ctx):
                     for cls in vecs(n, D.STATIC_LIT_CLASSES, other=base):
                         if n == 4 and not (flush == 0 and av == 64 and wrap in (0, 1)):
                             continue
+                        if quick and n == 3 and not (flush == 0 and av == 64 and wrap in (0, 1)):
+                            continue
                         core = (n == 2 and wrap == 1 and flush == 0 and av == 64 and cls[1] == [8, 9])
                         qs.append(_q("SL", 0, 1, n, wrap, flush, eos, av, cls, tier, core=core, witness=core or (n == 3 and cls[1] == [9, 8, 9])))
     # exact-oracle cross-check of the guided decoder (same configurations, whole rfc1951.h decoder)
-    for (n, wrap, flush, cl) in [(1, 0, 0, [9]), (2, 1, 0, [8, 9]), (2, 3, 2, [9, 9])] + ([] if quick else [(3, 1, 0, [8, 9, 8]), (3, 4, 0, [9, 9, 9]), (3, 0, 2, [8, 8, 9])]):
+    for (n, wrap, flush, cl) in [(1, 0, 0, [9]), (1, 1, 0, [8]), (1, 3, 2, [9])] + ([] if quick else [(2, 1, 0, [8, 9]), (2, 3, 2, [9, 9]), (3, 1, 0, [8, 9, 8]), (3, 4, 0, [9, 9, 9]), (3, 0, 2, [8, 8, 9])]):
         cls = ("c" + "".join("%x" % c for c in cl), cl, cl, True)
         qs.append(_q("SL", 0, 1, n, wrap, flush, 0, 64, cls, tier, exact=True, witness=True, timeout=(None if quick else 1200)))
 
@@ -100,10 +102,12 @@ def plan(tier, ctx):
                 if n == 4 and not (flush == 0 and wrap in (0, 1)):
                     continue
                 base = (wrap == 0 and flush == 0)
+                if quick and n == 3 and not (flush == 0 and wrap in (0, 1)):
+                    continue
                 for cls in vecs(n, D.STATIC_LIT_CLASSES, other=base):
                     core = (n == 2 and wrap == 1 and flush == 0 and cls[1] == [9, 8])
                     qs.append(_q("ST", 1, 1, n, wrap, flush, 0, 64, cls, tier, core=core, witness=core or (n == 3 and cls[1] == [8, 8, 9])))
-    for (n, wrap, flush, cl) in [(2, 1, 0, [8, 9])] + ([] if quick else [(3, 3, 1, [9, 8, 8])]):
+    for (n, wrap, flush, cl) in [(1, 1, 0, [9])] + ([] if quick else [(2, 1, 0, [8, 9]), (3, 3, 1, [9, 8, 8])]):
         cls = ("c" + "".join("%x" % c for c in cl), cl, cl, True)
         qs.append(_q("ST", 1, 1, n, wrap, flush, 0, 64, cls, tier, exact=True, witness=True, timeout=(None if quick else 1200)))
 
@@ -113,7 +117,7 @@ def plan(tier, ctx):
     # verdict in 1200 s at n = 1).  n = 0: the whole dynamic header + EOB + trailer, all wrappers.
     for wrap in allw:
         for flush in ((0,) if quick else (0, 1, 2)):
-            qs.append(_q("ST", 1, 0, 0, wrap, flush, 0, 256, nocls, tier, core=(wrap == 1 and flush == 0), witness=(wrap in (1, 3)), weight=15))
+            qs.append(_q("ST", 1, 0, 0, wrap, flush, 0, 256, nocls, tier, core=(wrap == 1 and flush == 0), witness=(wrap in (1, 3)), weight=60, timeout=(450 if quick else None)))
 
     return Plan("C01", "model_checking", qs,
                 functions_encoded=["isal_deflate_stateless", "isal_deflate (single call, end_of_stream=1)", "isal_deflate_init",
